@@ -41,12 +41,21 @@ Proof. exact pip_on_edge. Qed.
 Theorem C06_polygon_sound : forall r p, poly_contains r p = true -> pip r p = true.
 Proof. exact poly_contains_pip. Qed.
 
-(* circle: the containment test is the disc of the exported radius, which is the radius *)
+(* circle: the containment test is the disc of the radius ... *)
 Theorem C06_circle : forall C p,
-  circ_contains C p = true <-> in_disc (ccx C) (ccy C) (circ_export_radius C) p.
+  circ_contains C p = true <-> in_disc (ccx C) (ccy C) (cr C) p.
 Proof. exact circ_contains_spec. Qed.
-Theorem C06_circle_export_radius : forall C, circ_export_radius C == cr C.
-Proof. exact circ_export_radius_is_radius. Qed.
+(* ... but the exported geometry (Circle.shapely_object, which find_lanelet_by_shape / get_obstacles /
+   map_obstacles_to_lanelets intersect with) is the disc of HALF the radius: the property's "exported geometry
+   describes the same planar set" is refuted for every circle with radius <> 0 (recorded finding
+   Circle.shapely_object:radius; not repairable: the unedited test suite pins the resulting lanelet sets) *)
+Theorem C06_circle_export_half : forall C, circ_export_radius C == cr C / 2.
+Proof. exact circ_export_radius_half. Qed.
+Theorem C06_circle_export_refuted :
+  exists C p, circ_contains C p = true /\ ~ in_disc (ccx C) (ccy C) (circ_export_radius C) p.
+Proof. exact circ_export_refuted. Qed.
+Theorem C06_circle_export_agrees_iff_degenerate : forall C, circ_export_radius C == cr C <-> cr C == 0.
+Proof. exact circ_export_is_radius_iff. Qed.
 
 (* rectangle: the exported corners describe the l-by-w box at the pose *)
 Theorem C06_rect_box_convex : forall l w tx ty cs sn, cs * cs + sn * sn == 1 -> 0 < l -> 0 < w ->
@@ -84,7 +93,9 @@ Print Assumptions C06_on_segment.
 Print Assumptions C06_boundary_inclusive.
 Print Assumptions C06_polygon_sound.
 Print Assumptions C06_circle.
-Print Assumptions C06_circle_export_radius.
+Print Assumptions C06_circle_export_half.
+Print Assumptions C06_circle_export_refuted.
+Print Assumptions C06_circle_export_agrees_iff_degenerate.
 Print Assumptions C06_rect_box_convex.
 Print Assumptions C06_rect_box_axis.
 Print Assumptions C06_group_union.
